@@ -96,6 +96,29 @@ Definition raw_or_p (c : case) (sel : list bool) (s1 s2 : list Z) : Q * Q :=
   else if Z.eqb (k_gapmode c) 1 then count_diffs_internal s1 s2 (k_weights c) rm
   else count_diffs s1 s2 sel (k_weights c) rm.
 
+(* SPEC of "internal gaps only": the columns where either row is still in its leading run of
+   non-nucleotides, or already in its trailing one, are left out; on the others every gap against a
+   nucleotide counts (independent of the code's running accumulators) *)
+Fixpoint lead_nonnuc (s : list Z) : nat :=
+  match s with a :: t => if is_nuc a then O else S (lead_nonnuc t) | [] => O end.
+Definition spec_internal (c : case) (s1 s2 : list Z) : Q * Q :=
+  let rm := if Z.eqb (k_model c) 1 then k_rmamb c else false in
+  let L := length s1 in
+  let lead := Nat.max (lead_nonnuc s1) (lead_nonnuc s2) in
+  let trail := Nat.max (lead_nonnuc (rev s1)) (lead_nonnuc (rev s2)) in
+  let mask := map (fun i => Nat.leb lead i && Nat.ltb i (L - trail)) (seq 0 L) in
+  count_diffs_gaps s1 s2 mask (k_weights c) rm.
+
+(* a raw (model 0) or p-distance (model 1) entry against exact counts (d, t) *)
+Definition exact_entry_ok (c : case) (f : fl) (dt : Q * Q) : bool :=
+  let '(d, t) := dt in
+  if Z.eqb (k_model c) 0 then
+    if Qeq_bool d 0 then Z.eqb (fl_class f) 0 && Qeq_bool (fl_q f) 0 else fl_is_ratio f d
+  else
+    if Qeq_bool t 0 then negb (Z.eqb (fl_class f) 0)
+    else if Qeq_bool d 0 then Z.eqb (fl_class f) 0 && Qeq_bool (fl_q f) 0
+    else fl_is_ratio f (d / t).
+
 (* model vs implementation, exact part *)
 Definition model_ok (c : case) : bool :=
   let rs := unrows (k_in c) in
@@ -147,7 +170,10 @@ Definition spec_check (c : case) : option bool :=
           (if Nat.ltb i j then
              let s1 := nth i codes [] in let s2 := nth j codes [] in
              let pq := pair_counts c sel s1 s2 in
-             if Z.leb (k_model c) 1 then true   (* raw / p-distance: settled exactly by the correspondence *)
+             if Z.leb (k_model c) 1 then
+               (* raw / p-distance: settled exactly by the correspondence; the internal-gap mode is also
+                  judged against its column-wise definition *)
+               (if Z.eqb (k_gapmode c) 1 then exact_entry_ok c f (spec_internal c s1 s2) else true)
              else if estimator_borderline c pi pq then true
              else if estimator_clear c pi pq then
                (* finite, never below the observed proportion, 0 when nothing differs *)
